@@ -59,6 +59,14 @@ CHECKS["C13"] = dict(
     ref="DESIGN.md 5.C13",
 )
 
+CHECKS["C05"] = dict(
+    engine="symx+z3",
+    technique="bounded symbolic execution (symx/z3) of the whole real extraction path with the index k of the faulted hook invocation as an unbounded z3 Int compared inside every wrapped dispatcher (one path per dynamic invocation + the beyond-the-end class); fault pairs k<k2",
+    text="For 7 scenarios on real objects (coroutine chain with nested generator-based managers and an ExitStack, async generator with AsyncExitStack, three custom item trees with iterator/insert/replace hooks, a parked thread, a suspended greenlet) every single fault position and (quick: 3 scenarios, thorough: all) every pair of positions, two exception kinds: extract returns a Stack, each injected exception is retrievable from the .error of the Stack being built, outward frames equal the fault-free run, the result formats. Plus 18 arbitrary non-stack objects.",
+    note="Fault sites: unwrap_stackitem, FrameIterator.__next__, elaborate_frame, contexts_active_in_frame, elaborate_context, unwrap_context, unwrap_context_generator. BaseExceptions and faults inside CPython are outside. Injectors are transparent wrappers on module-level dispatcher names.",
+    ref="DESIGN.md 5.C05",
+)
+
 NOT_APPLICABLE = {
     "C06": "Quantifies over interpreter bookkeeping (reference counts, object lifetime, crashes) behind a ctypes boundary; no value a solver can range over, and any symbolic engine perturbs the very refcounts measured (DESIGN.md 5.C06).",
     "C07": "OS-thread interleavings against raw-memory reads; depends on when CPython releases the GIL, not on Python-level data; needs a runtime schedule controller, a different technique family (DESIGN.md 5.C07).",
